@@ -1,6 +1,6 @@
 (* C01 -- render() is total (partial: see MANIFEST level text).  Property theorems only. *)
 From Rimu Require Import Base Regex RegexParse Str Types Tables Guards State Inline Block
-  Frame FrameBlock FrameInst OptionsLemmas MiscLemmas.
+  Frame FrameBlock FrameInst OptionsLemmas MiscLemmas Rel RelBlock RelApi.
 
 (* option handling never fails, whatever the option values *)
 Theorem C01_update_total : forall o s, exists s', updateFrom o s = Ok (tt, s').
@@ -23,6 +23,28 @@ Print Assumptions C01_api_reduces_to_document.
 Theorem C01_invariants : forall s, reachable s -> (s_mode s = -1 \/ 0 <= s_mode s <= 15)%Z /\ NoDup (s_ids s).
 Proof. intros s H. split; [exact (reachable_range s H) | exact (reachable_ids_nodup s H)]. Qed.
 Print Assumptions C01_invariants.
+
+(* whether a callback is supplied makes no difference: same HTML or the same failure, the same diagnostic texts,
+   and sessions that agree on everything but the callback flag -- for every fuel, source, option values and session *)
+Theorem C01_callback_irrelevant : forall n src o1 o2 s,
+  same_but_callback o1 o2 ->
+  match api_render n src o1 s, api_render n src o2 s with
+  | Ok (h1, s1), Ok (h2, s2) =>
+      h1 = h2 /\ core s1 = core s2 /\
+      exists d1 d2, s_log s1 = d1 ++ s_log s /\ s_log s2 = d2 ++ s_log s /\ map snd d1 = map snd d2
+  | Raise e1, Raise e2 => e1 = e2
+  | Fuel, Fuel => True
+  | _, _ => False
+  end.
+Proof. exact callback_irrelevant. Qed.
+Print Assumptions C01_callback_irrelevant.
+
+(* ... and this persists along a history: sessions that differ only in callback flags and log flags stay so *)
+Theorem C01_callback_irrelevant_history : forall ls0 lt0 n src o1 o2 s t,
+  same_but_callback o1 o2 -> Rel ls0 lt0 NOCB s t ->
+  orel (Rel ls0 lt0 NOCB) (api_render n src o1 s) (api_render n src o2 t).
+Proof. exact api_render_callback. Qed.
+Print Assumptions C01_callback_irrelevant_history.
 
 Example C01_ex :
   match api_render 40 $"Hello *world*" (mkOpts (PyStr $"junk") (PyInt 5) (PyStr $"maybe") true) S0 with
